@@ -580,3 +580,47 @@ impl AymBackend for AymPrecise {
         }
     }
 }
+
+/// Verification-only view of the chip's integer core, compiled in only with `--cfg rustzx_verif`.
+/// `verif_raw_tick` calls the existing `update_mixer` once; nothing is re-implemented here.
+#[cfg(rustzx_verif)]
+#[derive(Clone, Debug, PartialEq)]
+pub struct VerifRawTick {
+    pub left: f64,
+    pub right: f64,
+    pub tone: [usize; TONE_CHANNELS],
+    pub tone_counter: [u16; TONE_CHANNELS],
+    pub noise: usize,
+    pub noise_counter: u16,
+    pub envelope: usize,
+    pub envelope_counter: u16,
+    pub envelope_segment: usize,
+}
+
+#[cfg(rustzx_verif)]
+impl AymPrecise {
+    /// Advances tone/noise/envelope generators by one internal tick (one `update_mixer` call)
+    /// and returns the pre-filter channel sums together with the generator state
+    pub fn verif_raw_tick(&mut self) -> VerifRawTick {
+        self.update_mixer();
+        VerifRawTick {
+            left: self.left,
+            right: self.right,
+            tone: [
+                self.channels[0].tone,
+                self.channels[1].tone,
+                self.channels[2].tone,
+            ],
+            tone_counter: [
+                self.channels[0].tone_counter,
+                self.channels[1].tone_counter,
+                self.channels[2].tone_counter,
+            ],
+            noise: self.noise,
+            noise_counter: self.noise_counter,
+            envelope: self.envelope,
+            envelope_counter: self.envelope_counter,
+            envelope_segment: self.envelope_segment,
+        }
+    }
+}
